@@ -427,6 +427,23 @@ theorem only_listed_methods (cfg : Cfg) (script : List Srv) :
     subst he
     exact ⟨fun s more hs => hfirst s more hs, hadj⟩
 
+theorem Adj_imp {α : Type} {R S : α → α → Prop} (h : ∀ a b, R a b → S a b) : ∀ l : List α, Adj R l → Adj S l
+  | [], _ => trivial
+  | [_], _ => trivial
+  | a :: b :: rest, ⟨h1, h2⟩ => ⟨h a b h1, Adj_imp h (b :: rest) h2⟩
+
+/-- the statement's clause verbatim, for configurations without AuthCallback (the only documented way
+    to use a method the server did not list): after the initial "none", every method tried is in the
+    server's current list and has not failed before -/
+theorem only_listed_methods_no_callback (cfg : Cfg) (script : List Srv) (hcb : cfg.authCb = none) :
+    Adj (fun _ s2 => s2.method ∈ s2.allowed ∧ s2.method ∉ s2.tried ∧ ∃ a ∈ cfg.auth, a.name = s2.method)
+      (run cfg script).segs := by
+  refine Adj_imp ?_ _ (only_listed_methods cfg script).2
+  intro s1 s2 hl
+  rcases hl.2.1 with h | ⟨ds, _, _, h, _⟩
+  · exact h
+  · rw [hcb] at h; simp at h
+
 /-- **attempts_bounded.** At most 65 `auth` calls are made, whatever the server sends -/
 theorem attempts_bounded (cfg : Cfg) (script : List Srv) : (run cfg script).segs.length ≤ 65 := by
   rcases run_cases cfg script with ⟨h, _⟩ | ⟨sa, rest, h, _⟩
@@ -675,5 +692,37 @@ theorem sign_only_after_pk_ok (cfg : Cfg) (script : List Srv) (pre post : List E
       rename_i sp
       obtain ⟨pre2, rfl⟩ := lastOr_none_some hl2
       exact ⟨pre2, sp, a', by simp⟩
+
+/-! ## non-vacuity: concrete runs -/
+
+def edSigner : Signer := ⟨1, "ssh-ed25519", .multi ["ssh-ed25519"]⟩
+def cfgPwPk : Cfg := { user := "u", auth := [⟨.publickey [edSigner], none⟩, ⟨.password "pw", none⟩] }
+
+/-- none → failure listing both → publickey (query, PK_OK echo, signature) → partial success listing
+    password → password → success.  Three further segments, each on a listed, untried method; the
+    signature follows the acknowledged PK_OK; the run stops at the success. -/
+def demoScript : List Srv :=
+  [.serviceAccept, .failure ["publickey", "password"] false, .pkOk .echo, .failure ["password"] true, .success, .banner]
+
+example : (run cfgPwPk demoScript).res = .ok ∧ (run cfgPwPk demoScript).segs.map (·.method) = ["none", "publickey", "password"] ∧
+    (run cfgPwPk demoScript).events.filter (fun e => match e with | .wSign .. => true | .ack .. => true | _ => false) =
+      [.ack "ssh-ed25519" 1, .wSign "u" "ssh-ed25519" 1 "ssh-ed25519"] := by decide
+
+/-- a PK_OK for another key: no signature is ever written -/
+example : (run cfgPwPk [.serviceAccept, .failure ["publickey"] false, .pkOk .otherKey, .success]).events.all
+    (fun e => match e with | .wSign .. => false | _ => true) = true := by decide
+
+/-- a server that answers "partial success, try password" for ever: exactly 65 `auth` calls, then the client gives up -/
+example : (run cfgPwPk (.serviceAccept :: List.replicate 80 (.failure ["password"] true))).segs.length = 65 ∧
+    (run cfgPwPk (.serviceAccept :: List.replicate 80 (.failure ["password"] true))).res = .err := by decide
+
+/-- RetryableAuthMethod(password, 3): three password requests inside one loop iteration -/
+example : ((run { user := "u", auth := [⟨.password "pw", some 3⟩] }
+    [.serviceAccept, .failure ["password"] false, .failure ["password"] false, .failure ["password"] false,
+     .failure ["password"] false, .success]).segs.map (·.calls)) = [1, 3] := by decide
+
+/-- AuthCallback handing out a method the server did not list (the documented exception) -/
+example : ((run { user := "u", auth := [], authCb := some [.use ⟨.password "pw", none⟩] }
+    [.serviceAccept, .failure ["publickey"] false, .success]).segs.map (·.method)) = ["none", "password"] := by decide
 
 end XC.C34
